@@ -117,6 +117,7 @@ type frame struct {
 	lets     map[string]SVal
 	dynType  map[ssa.Value]types.Type
 	debug    map[string][]ssa.Value
+	debugAddr map[string]ssa.Value
 	heap     *heapState // current heap while executing a block
 	cur      *ssa.BasicBlock
 	guard    Term // reach condition of the current block
@@ -149,11 +150,17 @@ func newFrame(c *Ctx, fn *ssa.Function) *frame {
 		dynType: map[ssa.Value]types.Type{}, callOrd: map[string]int{}, params: map[string]SVal{}, lets: map[string]SVal{}}
 	f.findLoops()
 	f.debug = map[string][]ssa.Value{}
+	f.debugAddr = map[string]ssa.Value{}
 	for _, b := range fn.Blocks {
 		for _, in := range b.Instrs {
 			if d, ok := in.(*ssa.DebugRef); ok {
-				if id, ok := d.Expr.(*ast.Ident); ok && !d.IsAddr {
-					f.debug[id.Name] = append(f.debug[id.Name], d.X)
+				if id, ok := d.Expr.(*ast.Ident); ok {
+					if !d.IsAddr {
+						f.debug[id.Name] = append(f.debug[id.Name], d.X)
+					} else if _, isAlloc := d.X.(*ssa.Alloc); isAlloc {
+						// address-taken local: the name denotes the variable's cell (auto-dereferenced in specs)
+						f.debugAddr[id.Name] = d.X
+					}
 				}
 			}
 		}
@@ -519,6 +526,14 @@ func (f *frame) runLoop(li *loopInfo, order []*ssa.BasicBlock) {
 			nv := c.fresh(k+"~loop", srt)
 			if k == allocKey {
 				c.assume(ge(nv, c.heapGet(be.heap, k, srt)))
+			} else if !dc.nonFresh[k] && strings.HasPrefix(srt, "(Array Int ") {
+				// the loop writes this array only at objects it allocates itself: objects that
+				// existed at loop entry are unchanged
+				c.counter["q"]++
+				q := quote(fmt.Sprintf("q ref %d", c.counter["q"]))
+				old := c.heapGet(be.heap, k, srt)
+				c.assume(Term{fmt.Sprintf("(forall ((%s Int)) (! (=> (>= %s (- %s)) (= (select %s %s) (select %s %s))) :pattern ((select %s %s))))",
+					q, q, c.nalloc(be.heap).S, nv.S, q, old.S, q, nv.S, q), SBool})
 			}
 			heap1.arrays[k] = nv
 			c.writes[k] = true
@@ -612,7 +627,8 @@ func (f *frame) autoInductionFacts(li *loopInfo, phis []*ssa.Phi, hv, entry map[
 		if !ok {
 			continue
 		}
-		f.c.assume(implies(reach, ge(t, intLit(-1))))
+		// a range index over a slice/array/string is below the length, which is at most 2^62
+		f.c.assume(implies(reach, and(ge(t, intLit(-1)), lt(t, Term{"4611686018427387904", SInt}))))
 	}
 }
 
@@ -638,6 +654,36 @@ func (f *frame) loopEnv(li *loopInfo, phiVals map[*ssa.Phi]Val, heap *heapState)
 		for p, v := range phiVals {
 			if p.Comment == name {
 				return f.sval(v, p.Type()), true
+			}
+		}
+		// 1b. idx<N>: the range index of loop N (phi+1: the next index at the loop's own header,
+		// the current index inside its body)
+		if strings.HasPrefix(name, "idx") {
+			var n int
+			if _, err := fmt.Sscanf(name, "idx%d", &n); err == nil {
+				for _, l2 := range f.loops {
+					if l2.ordinal != n {
+						continue
+					}
+					for _, in := range l2.header.Instrs {
+						p, ok := in.(*ssa.Phi)
+						if !ok || p.Comment != "rangeindex" {
+							continue
+						}
+						if pv, ok := phiVals[p]; ok {
+							return SVal{T: add(pv.(Term), tOne), GoT: p.Type()}, true
+						}
+						if have, ok := f.vals[p]; ok {
+							return SVal{T: add(have.(Term), tOne), GoT: p.Type()}, true
+						}
+					}
+				}
+			}
+		}
+		// 1c. address-taken locals
+		if a, ok := f.debugAddr[name]; ok {
+			if have, ok := f.vals[a]; ok {
+				return f.sval(have, a.Type()), true
 			}
 		}
 		// 2. debug-named values
@@ -900,7 +946,7 @@ func (f *frame) storeTo(h *heapState, a *Addr, x Term) {
 			for i := 0; i < st.NumFields(); i++ {
 				key := fieldKey(a.Typ, st, i)
 				arr := c.heapGet(h, key, c.fieldSort(st, i))
-				c.heapSet(h, key, store(arr, a.Base, c.structGet(a.Typ, st, i, x)))
+				c.heapSetAt(h, key, store(arr, a.Base, c.structGet(a.Typ, st, i, x)), a.Base)
 			}
 			return
 		}
@@ -908,25 +954,25 @@ func (f *frame) storeTo(h *heapState, a *Addr, x Term) {
 		key := fieldKey(a.Typ, st, i)
 		arr := c.heapGet(h, key, c.fieldSort(st, i))
 		nv := f.updatePath(st.Field(i).Type(), sel(arr, a.Base), a.Path[1:], x)
-		c.heapSet(h, key, store(arr, a.Base, nv))
+		c.heapSetAt(h, key, store(arr, a.Base, nv), a.Base)
 	case aElem:
 		key := elemKey(a.Typ)
 		arr := c.heapGet(h, key, c.elemSort(a.Typ))
 		inner := sel(arr, a.Base)
 		nv := f.updatePath(a.Typ, sel(inner, a.Idx), a.Path, x)
-		c.heapSet(h, key, store(arr, a.Base, store(inner, a.Idx, nv)))
+		c.heapSetAt(h, key, store(arr, a.Base, store(inner, a.Idx, nv)), a.Base)
 	case aCell:
 		if at, ok := types.Unalias(a.Typ).Underlying().(*types.Array); ok {
 			key := elemKey(at.Elem())
 			arr := c.heapGet(h, key, c.elemSort(at.Elem()))
 			nv := f.updatePath(a.Typ, sel(arr, a.Base), a.Path, x)
-			c.heapSet(h, key, store(arr, a.Base, nv))
+			c.heapSetAt(h, key, store(arr, a.Base, nv), a.Base)
 			return
 		}
 		key := cellKey(a.Typ)
 		arr := c.heapGet(h, key, c.cellSort(a.Typ))
 		nv := f.updatePath(a.Typ, sel(arr, a.Base), a.Path, x)
-		c.heapSet(h, key, store(arr, a.Base, nv))
+		c.heapSetAt(h, key, store(arr, a.Base, nv), a.Base)
 	}
 }
 
@@ -937,6 +983,7 @@ func (f *frame) alloc(hint string) Term {
 	n1 := c.name("nalloc", add(n, tOne))
 	c.heapSet(f.heap, allocKey, n1)
 	r := c.name(hint, mk(SInt, "-", n1))
+	c.freshRefs[r.S] = true
 	return r
 }
 
